@@ -6,13 +6,15 @@ and, after every op that sets parameters, compares the state prepared by `ansatz
 called.  Wrong-length vectors must be refused (ValueError / AssertionError) and leave the circuit as it was.
 All-zero parameters of the excitation-based ansaetze must give exactly the reference determinant.
 """
-import contextlib, copy, io, math
+import copy, math
 
 import numpy as np
 from hypothesis import strategies as st
 
 from vlib.runner import part, Fail, Skip
 from vlib import refsim as R, strategies as S
+from vlib.h_c07 import (mol, quiet, recs, state_of, fidelity, jw_reference_index, make, family_configs, n_params_vsqs, KEYWORDS,
+                        expand, recipes, _adapt_pool)
 
 PROPERTY = "C07"
 RULE = ("Hypothesis-generated operation histories (1 build + up to 5/9 further ops: build_circuit(theta), build_circuit(keyword/default), "
@@ -21,7 +23,9 @@ RULE = ("Hypothesis-generated operation histories (1 build + up to 5/9 further o
         "ADAPT with the UCCGSD pool, VariationalCircuitAnsatz over generated circuits; molecules H2, H3 doublet, H4, LiH frozen, H4 UHF; "
         "encodings jw/bk/scbk/jkmn, both orderings). theta recipes: exact zeros, +-x, repeated values, beyond 2pi, 1e-9-small, all-zero, "
         "previous vector with entries zeroed/sign-flipped. After every parameter-setting op the state of ansatz.circuit must equal (fidelity "
-        ">= 1-1e-9) the state of a fresh object's build_circuit(theta). Non-trivial = the history has >=1 update_var_params after a build AND "
+        ">= 1-1e-9) the state of a fresh object's build_circuit(theta); VSQS is additionally compared with the Trotter product it documents "
+        "(its build path may delegate to the update path). Wrong-length vectors must raise and leave the circuit's state unchanged; all-zero "
+        "vectors of the excitation-based ansaetze must give the reference determinant. Non-trivial = the history has >=1 update_var_params after a build AND "
         "(two consecutive accepted vectors with different zero patterns, or k>=3, or a wrong-length attempt, or an ADAPT add_operator). "
         "Distinct = distinct canonical JSON of (configuration, op list).")
 ASSUMPTIONS = ["numpy linear algebra", "reference gate table/simulator in vlib/refsim.py (self-tested)",
@@ -30,85 +34,14 @@ ASSUMPTIONS = ["numpy linear algebra", "reference gate table/simulator in vlib/r
                "the all-zero clause is checked against an independently computed Jordan-Wigner determinant (other encodings: against the "
                "ansatz' own reference circuit, whose correctness is C05's subject)",
                "rejection of a wrong-length vector = ValueError or AssertionError (the two forms the ansatz classes use)",
+               "for ansaetze whose build_circuit itself calls update_var_params (HEA, pUCCD, UCC1/UCC3, ADAPT, VariationalCircuitAnsatz) the "
+               "differential oracle detects history dependence only, not a wrong but consistent gate assignment",
+               "VSQS reference: first/second-order Trotter product over the term lists stored by the ansatz (h_init_list, h_final_list, h_nav_list)",
                "<= 8 qubits (12 never), histories <= 6 ops quick / <= 10 thorough"]
 SHARDS = {"quick": 4, "thorough": 16}
 
 FID_TOL = 1e-9
 EXCITATION_BASED = {"UCCSD", "RUCC", "UpCCGSD", "UCCGD", "pUCCD", "ADAPT"}
-
-# ------------------------------------------------------------------------------------------------ molecule pool
-
-_XYZ_H2 = [["H", [0.0, 0.0, 0.0]], ["H", [0.0, 0.0, 0.7414]]]
-_XYZ_H3 = [["H", [0.0, 0.0, 0.0]], ["H", [0.0, 0.1, 0.9]], ["H", [0.8, 0.2, 0.3]]]
-_XYZ_H4 = [["H", [0.7071067811865476, 0.0, 0.0]], ["H", [0.0, 0.7071067811865476, 0.0]],
-           ["H", [-1.0071067811865476, 0.0, 0.0]], ["H", [0.0, -1.0071067811865476, 0.0]]]
-_XYZ_LiH = [["Li", [0.0, 0.0, 0.0]], ["H", [0.0, 0.0, 1.5949]]]
-MOL_SPECS = {
-    "H2": dict(xyz=_XYZ_H2, q=0, spin=0, frozen=None, uhf=False),
-    "H3": dict(xyz=_XYZ_H3, q=0, spin=1, frozen=None, uhf=False),                 # doublet, ROHF
-    "H4": dict(xyz=_XYZ_H4, q=0, spin=0, frozen=None, uhf=False),
-    "LiH": dict(xyz=_XYZ_LiH, q=0, spin=0, frozen=[0, 3, 4], uhf=False),           # 3 active orbitals
-    "H4uhf": dict(xyz=_XYZ_H4, q=0, spin=0, frozen=[[1], []], uhf=True),           # UHF, 3 alpha / 4 beta active orbitals
-}
-_MOLS = {}
-
-
-def mol(name):
-    """Fixed pool, built once per process (SCF is the expensive part). Molecules are only read by the ansatz classes."""
-    if name not in _MOLS:
-        from tangelo import SecondQuantizedMolecule
-        s = MOL_SPECS[name]
-        with quiet():
-            _MOLS[name] = SecondQuantizedMolecule([(a, tuple(x)) for a, x in s["xyz"]], s["q"], s["spin"], basis="sto-3g",
-                                                  frozen_orbitals=copy.deepcopy(s["frozen"]), uhf=s["uhf"])
-    return _MOLS[name]
-
-
-@contextlib.contextmanager
-def quiet():
-    with contextlib.redirect_stdout(io.StringIO()):
-        yield
-
-
-# ------------------------------------------------------------------------------------------------ simulation helpers
-
-def recs(circ):
-    """Tangelo circuit -> gate records (Gate subclasses dict, so refsim.fields would mis-read a Gate object)."""
-    out = []
-    for g in circ:
-        p = g.parameter
-        if isinstance(p, str):
-            if p != "":
-                raise Fail(f"gate {g.name} on {g.target} still carries the symbolic parameter {p!r} after build/update",
-                           sig="symbolic-parameter-left")
-            p = None
-        if p is not None and np.iscomplexobj(p):
-            if complex(p).imag != 0.0:
-                raise Fail(f"gate {g.name} on {g.target} carries the complex parameter {p!r}", sig="complex-gate-parameter")
-            p = complex(p).real
-        out.append({"n": g.name, "t": [int(t) for t in g.target], "c": [int(c) for c in g.control] if g.control else None,
-                    "p": None if p is None else float(p)})
-    return out
-
-
-def state_of(circ, n):
-    return R.run(recs(circ), n)
-
-
-def fidelity(a, b):
-    return float(abs(np.vdot(a, b)) ** 2)
-
-
-def jw_reference_index(n_qubits, n_alpha, n_beta, utd):
-    bits = [0] * n_qubits
-    for i in range(n_alpha):
-        bits[i if utd else 2 * i] = 1
-    for i in range(n_beta):
-        bits[n_qubits // 2 + i if utd else 2 * i + 1] = 1
-    x = 0
-    for b in bits:
-        x = (x << 1) | b
-    return x
 
 
 def selftest():
@@ -123,193 +56,7 @@ def selftest():
     assert expand({"k": "prev", "base": [7.0], "zero": [0], "flip": [1], "set": [2]}, 3, [1.0, 2.0, 3.0]) == [0.0, -2.0, 7.0]
 
 
-# ------------------------------------------------------------------------------------------------ configurations
-
-def _adapt_pool(cfg):
-    """Pool operators exactly as ADAPTSolver.build prepares them (UCCGSD pool, mapped, coefficients cast to +-1)."""
-    key = ("pool", cfg["mol"], cfg["map"], cfg["utd"])
-    if key not in _MOLS:
-        from tangelo.toolboxes.ansatz_generator._general_unitary_cc import uccgsd_generator, get_singles_number, get_doubles_number
-        from tangelo.toolboxes.qubit_mappings.mapping_transform import fermion_to_qubit_mapping
-        m = mol(cfg["mol"])
-        n = m.n_active_sos
-        ferm = uccgsd_generator(n, single_coeffs=np.ones(get_singles_number(n // 2)), double_coeffs=np.ones(get_doubles_number(n // 2)))
-        ops = [fermion_to_qubit_mapping(fermion_operator=f, mapping=cfg["map"], n_spinorbitals=n, n_electrons=m.n_active_electrons,
-                                        up_then_down=cfg["utd"], spin=m.active_spin) for f in ferm]
-        for q in ops:
-            for term, coeff in q.terms.items():
-                q.terms[term] = math.copysign(1., coeff.imag)
-        _MOLS[key] = ops
-    return _MOLS[key]
-
-
-def make(cfg, adapt_ops=()):
-    """Fresh ansatz object for a configuration (plain data). `adapt_ops` = pool indices already added (ADAPT only)."""
-    from tangelo.toolboxes import ansatz_generator as AG
-    a = cfg["a"]
-    with quiet():
-        if a == "UCCSD":
-            return AG.UCCSD(mol(cfg["mol"]), mapping=cfg["map"], up_then_down=cfg["utd"])
-        if a == "RUCC":
-            return AG.RUCC(cfg["n"])
-        if a == "UpCCGSD":
-            return AG.UpCCGSD(mol(cfg["mol"]), mapping=cfg["map"], up_then_down=cfg["utd"], k=cfg["k"])
-        if a == "UCCGD":
-            return AG.UCCGD(mol(cfg["mol"]), mapping=cfg["map"], up_then_down=cfg["utd"])
-        if a == "HEA":
-            if cfg.get("mol"):
-                return AG.HEA(molecule=mol(cfg["mol"]), mapping=cfg["map"], up_then_down=cfg["utd"], n_layers=cfg["layers"],
-                              rot_type=cfg["rot"], reference_state=cfg["ref"])
-            return AG.HEA(n_qubits=cfg["nq"], n_electrons=cfg["ne"], mapping="jw", up_then_down=cfg["utd"], n_layers=cfg["layers"],
-                          rot_type=cfg["rot"], reference_state=cfg["ref"], spin=0)
-        if a == "QMF":
-            return AG.QMF(mol(cfg["mol"]), mapping=cfg["map"], up_then_down=cfg["utd"], init_qmf=copy.deepcopy(cfg.get("init")))
-        if a == "QCC":
-            return AG.QCC(mol(cfg["mol"]), mapping=cfg["map"], up_then_down=cfg["utd"], max_qcc_gens=cfg.get("max"))
-        if a == "ILC":
-            return AG.ILC(mol(cfg["mol"]), mapping=cfg["map"], up_then_down=cfg["utd"], max_ilc_gens=cfg.get("max"))
-        if a == "pUCCD":
-            return AG.pUCCD(mol(cfg["mol"]))
-        if a == "VSQS":
-            nav = S.build_qubit_op(cfg["nav"]) if cfg.get("nav") else None
-            if cfg.get("mol"):
-                return AG.VSQS(mol(cfg["mol"]), mapping=cfg["map"], up_then_down=cfg["utd"], intervals=cfg["iv"], time=cfg["time"],
-                               trotter_order=cfg["order"], h_nav=nav)
-            from tangelo.linq import Circuit, Gate
-            ref = Circuit([Gate("X", q) for q in cfg["refx"]], n_qubits=cfg["nq"])
-            return AG.VSQS(qubit_hamiltonian=S.build_qubit_op(cfg["ham"]), h_init=S.build_qubit_op(cfg["hinit"]), reference_state=ref,
-                           intervals=cfg["iv"], time=cfg["time"], trotter_order=cfg["order"], h_nav=nav)
-        if a == "ADAPT":
-            m = mol(cfg["mol"])
-            pool = _adapt_pool(cfg)
-            ops = [copy.deepcopy(pool[i % len(pool)]) for i in adapt_ops]
-            return AG.ADAPTAnsatz(m.n_active_sos, m.n_active_electrons, m.active_spin,
-                                  {"mapping": cfg["map"], "up_then_down": cfg["utd"], "operators": ops})
-        if a == "VarCirc":
-            return AG.VariationalCircuitAnsatz(S.build_circuit(cfg["circ"]))
-    raise KeyError(a)
-
-
-# keywords of set_var_params exercised through build_circuit(<keyword>); None = build_circuit() default. Only keywords whose
-# evaluation is cheap and does not need anything outside the ansatz (UCCSD's "mp2" runs a solver: not part of this property).
-KEYWORDS = {"UCCSD": ["ones", "random"], "RUCC": [None, "ones", "zeros", "random"], "UpCCGSD": [None, "ones", "random"],
-            "UCCGD": [None, "ones", "random"], "HEA": [None, "ones", "zeros", "random"],
-            "QMF": [None, "vacuum", "half_pi", "minus_half_pi", "full_pi", "random", "hf_state"],
-            "QCC": [None, "qmf_state", "qcc_tau_guess", "random"], "ILC": ["qmf_state", "ilc_tau_guess", "random"],
-            "VSQS": [None], "pUCCD": [None, "ones", "random"], "ADAPT": [None], "VarCirc": [None, "ones", "zeros", "random"]}
-
-
-def family_configs(fam, tier):
-    """Explicit configuration lists (plain data). Every entry constructs on the pinned tree (checked when the module was written)."""
-    q = tier == "quick"
-    maps = ["jw", "bk", "scbk", "jkmn"]
-    out = []
-    if fam == "UCCSD":
-        for m in ["H2", "H3", "LiH", "H4", "H4uhf"]:
-            for mp in (maps if m != "H4uhf" else ["jw", "bk", "jkmn"]):
-                for utd in (False, True):
-                    out.append({"a": "UCCSD", "mol": m, "map": mp, "utd": utd})
-        out.append({"a": "UCCSD", "mol": "H2", "map": "JW", "utd": False})
-    elif fam == "RUCC":
-        out = [{"a": "RUCC", "n": 1}, {"a": "RUCC", "n": 3}]
-    elif fam == "UpCCGSD":
-        for m in ["H2", "H3", "LiH", "H4"]:
-            for k in (1, 2, 3, 4):
-                if m == "H4" and k == 4 and q:
-                    continue
-                for mp in (["jw", "bk", "jkmn"] + (["scbk"] if m in ("H2", "LiH", "H4") else [])):
-                    for utd in (False, True):
-                        out.append({"a": "UpCCGSD", "mol": m, "map": mp, "utd": utd, "k": k})
-    elif fam == "UCCGD":
-        for m in (["H2", "H3", "LiH"] + ([] if q else ["H4"])):
-            for mp in (["jw", "bk", "jkmn"] + (["scbk"] if m != "H3" else [])):
-                for utd in (False, True):
-                    out.append({"a": "UCCGD", "mol": m, "map": mp, "utd": utd})
-    elif fam == "HEA":
-        for m in ["H2", "H3", "LiH"]:
-            for mp in ["jw", "bk", "scbk"]:
-                for layers in (1, 2, 3):
-                    for rot in ("euler", "real"):
-                        out.append({"a": "HEA", "mol": m, "map": mp, "utd": layers % 2 == 0, "layers": layers, "rot": rot,
-                                    "ref": "HF" if rot == "euler" or layers != 2 else "zero"})
-        for nq, ne in ((2, 2), (4, 2), (5, 0), (6, 4)):
-            out.append({"a": "HEA", "mol": None, "nq": nq, "ne": ne, "utd": False, "layers": 2, "rot": "real", "ref": "HF" if ne else "zero"})
-    elif fam in ("QMF", "QCC", "ILC"):
-        for m in (["H2", "H3", "LiH"] + ([] if q or fam == "QMF" else ["H4"])):
-            for mp in maps:
-                for utd in (False, True):
-                    c = {"a": fam, "mol": m, "map": mp, "utd": utd}
-                    out.append(c)
-                    if fam == "QMF" and mp == "jw":
-                        out.append(dict(c, init={"init_params": "vacuum"}))
-                    if fam in ("QCC", "ILC") and mp == "jw" and m != "H2":
-                        out.append(dict(c, max=2))
-    elif fam == "pUCCD":
-        out = [{"a": "pUCCD", "mol": m} for m in ("H2", "LiH", "H4")]
-    elif fam == "ADAPT":
-        for m in ["H2", "H3", "LiH", "H4"]:
-            for mp in ["jw", "bk", "jkmn"] + (["scbk"] if m != "H4" else []):
-                for utd in (False, True):
-                    out.append({"a": "ADAPT", "mol": m, "map": mp, "utd": utd})
-    return out
-
-
-def n_params_vsqs(cfg):
-    return (cfg["iv"] - 1) * (3 if cfg.get("nav") else 2)
-
-
-# ------------------------------------------------------------------------------------------------ theta recipes
-
-def expand(rec, n, prev):
-    """Length-agnostic recipe -> explicit list of n floats (n is the number of parameters the ansatz advertises)."""
-    if n <= 0:
-        return []
-    k = rec["k"]
-    if k == "zeros":
-        return [0.0] * n
-    base = [float(x) for x in rec["base"]]
-    if k == "prev" and prev is not None and len(prev) == n:
-        th = [float(x) for x in prev]
-        for j in rec.get("set", []):
-            th[j % n] = base[j % len(base)]
-        for j in rec.get("flip", []):
-            th[j % n] = -th[j % n]
-    else:
-        # exact zeros stay exact zeros; a non-zero drift makes every entry distinct (periodic vectors would hide offset errors)
-        drift = float(rec.get("drift", 0.0))
-        th = [base[i % len(base)] + (drift * i if base[i % len(base)] != 0.0 else 0.0) for i in range(n)]
-    for j in rec.get("zero", []):
-        th[j % n] = 0.0
-    return th
-
-
-def values():
-    two_pi = 2 * math.pi
-    plain = st.floats(-math.pi, math.pi, allow_nan=False)
-    return st.one_of(
-        plain, plain, plain,
-        st.tuples(st.floats(0.05, 3.0), st.integers(1, 3), st.sampled_from([-1.0, 1.0])).map(lambda t: t[2] * (t[0] + two_pi * t[1])),
-        st.sampled_from([0.0, 0.0, 1e-9, -1e-9, 1e-7, -1e-5, 0.1, -0.1, 0.5, 1.0, -1.0]),
-        st.integers(-8, 8).map(lambda j: j * math.pi / 2),
-    )
-
-
-@st.composite
-def recipes(draw):
-    """Explicit selector integers give the intended weights (one_of over repeated strategies does not)."""
-    idx = st.integers(0, 63)
-    sel = draw(st.integers(0, 9))
-    if sel == 0:
-        return {"k": "zeros"}
-    base = draw(st.lists(values(), min_size=1, max_size=6))
-    few = draw(st.lists(idx, max_size=3)) if draw(st.integers(0, 2)) == 0 else []
-    if sel <= 5:
-        return {"k": "cycle", "base": base, "drift": draw(st.sampled_from([0.0, 0.013, -0.07, 0.211, 0.5])), "zero": few}
-    if sel <= 7:     # previous vector with some entries zeroed / re-set (support change on purpose)
-        return {"k": "prev", "base": base, "zero": draw(st.lists(idx, min_size=1, max_size=3)), "flip": draw(st.lists(idx, max_size=2)),
-                "set": draw(st.lists(idx, max_size=3))}
-    return {"k": "prev", "base": base, "zero": [], "flip": draw(st.lists(idx, min_size=1, max_size=3)), "set": draw(st.lists(idx, max_size=3))}
-
+# ------------------------------------------------------------------------------------------------ op records / histories
 
 @st.composite
 def op_records(draw, fam, first):
@@ -601,56 +348,56 @@ def _family_part(ctx, fam, name=None, keep=None, frac=1.0):
 
 # ------------------------------------------------------------------------------------------------ parts
 
-@part("uccsd", quick=80, thorough=2400)
+@part("uccsd", quick=80, thorough=5000)
 def p_uccsd(ctx):
     _family_part(ctx, "UCCSD", "uccsd_closed", keep=lambda c: c["mol"] in ("H2", "LiH", "H4"), frac=0.4)
     _family_part(ctx, "UCCSD", "uccsd_rohf", keep=lambda c: c["mol"] == "H3", frac=0.3)
     _family_part(ctx, "UCCSD", "uccsd_uhf", keep=lambda c: c["mol"] == "H4uhf", frac=0.3)
 
 
-@part("rucc", quick=24, thorough=400)
+@part("rucc", quick=24, thorough=800)
 def p_rucc(ctx):
     _family_part(ctx, "RUCC")
 
 
-@part("upccgsd", quick=72, thorough=2400)
+@part("upccgsd", quick=72, thorough=5000)
 def p_upccgsd(ctx):
     _family_part(ctx, "UpCCGSD", "upccgsd_k12", keep=lambda c: c["k"] <= 2, frac=0.35)
     _family_part(ctx, "UpCCGSD", "upccgsd_k34", keep=lambda c: c["k"] >= 3, frac=0.65)
 
 
-@part("uccgd", quick=48, thorough=1000)
+@part("uccgd", quick=48, thorough=1500)
 def p_uccgd(ctx):
     _family_part(ctx, "UCCGD", "uccgd", keep=lambda c: c["map"] != "scbk", frac=0.45)
     _family_part(ctx, "UCCGD", "uccgd_scbk", keep=lambda c: c["map"] == "scbk", frac=0.55)   # encoding that merges words of different excitations
 
 
-@part("hea", quick=40, thorough=1200)
+@part("hea", quick=40, thorough=2500)
 def p_hea(ctx):
     _family_part(ctx, "HEA")
 
 
-@part("qmf", quick=24, thorough=600)
+@part("qmf", quick=24, thorough=1200)
 def p_qmf(ctx):
     _family_part(ctx, "QMF")
 
 
-@part("qcc", quick=32, thorough=800)
+@part("qcc", quick=32, thorough=1600)
 def p_qcc(ctx):
     _family_part(ctx, "QCC")
 
 
-@part("ilc", quick=24, thorough=600)
+@part("ilc", quick=24, thorough=1200)
 def p_ilc(ctx):
     _family_part(ctx, "ILC")
 
 
-@part("puccd", quick=24, thorough=600)
+@part("puccd", quick=24, thorough=1200)
 def p_puccd(ctx):
     _family_part(ctx, "pUCCD")
 
 
-@part("adapt", quick=48, thorough=1600)
+@part("adapt", quick=48, thorough=3200)
 def p_adapt(ctx):
     _family_part(ctx, "ADAPT")
 
@@ -675,7 +422,7 @@ def vsqs_configs(draw, tier):
     return cfg
 
 
-@part("vsqs", quick=56, thorough=1600)
+@part("vsqs", quick=56, thorough=3000)
 def p_vsqs(ctx):
     max_ops = 6 if ctx.tier == "quick" else 10
     ctx.search("vsqs", histories("VSQS", vsqs_configs(ctx.tier), max_ops), lambda case: run_history(ctx, case), exclusions=EXCLUSIONS)
@@ -691,7 +438,7 @@ def varcirc_configs(draw, tier):
     return {"a": "VarCirc", "circ": c}
 
 
-@part("varcirc", quick=60, thorough=2000)
+@part("varcirc", quick=60, thorough=4000)
 def p_varcirc(ctx):
     max_ops = 6 if ctx.tier == "quick" else 10
     ctx.search("varcirc", histories("VarCirc", varcirc_configs(ctx.tier), max_ops), lambda case: run_history(ctx, case))
